@@ -72,10 +72,13 @@ Print Assumptions C08_no_oob_raw_bit.
 Theorem C08_no_oob_raw_word : forall r i, (exists v, raw_word r i = Ok v) \/ raw_word r i = Panic PIndex.
 Proof. exact ok_or_raw_word. Qed.
 Print Assumptions C08_no_oob_raw_word.
+(* set_bit asserts the bit offset against the length first (repair 7337be0 of finding F13: before it only the word
+   index was checked, see C08_set_bit_old_refuted in Props/C08_reach.v); behind the assertion the word index is
+   bounds-checked.  On a vector satisfying the invariant the second case is always Ok (RawProof.raw_set_bit_ok). *)
 Theorem C08_no_oob_raw_set_bit : forall r i v,
   (rlen r <= i -> raw_set_bit r i v = Panic PAssert) /\
   (i < rlen r -> (exists r', raw_set_bit r i v = Ok r') \/ raw_set_bit r i v = Panic PIndex).
-Proof. exact ok_or_raw_set_bit. Qed.
+Proof. exact raw_set_bit_class. Qed.
 Print Assumptions C08_no_oob_raw_set_bit.
 Theorem C08_no_oob_raw_push_pop_bit : forall r v,
   ((exists r', raw_push_bit r v = Ok r') \/ raw_push_bit r v = Panic PIndex) /\
